@@ -22,7 +22,7 @@ echo "demo on clean tree: exit $RC_CLEAN"
 echo "== patched tree"
 git apply MUTANT/patch.diff || { echo "patch does not apply"; exit 2; }
 build || { echo "PATCHED BUILD FAILED"; exit 3; }
-ctest --test-dir _build -j8 --timeout 900 2>&1 | grep -E "tests passed|tests failed" ;
+ctest --test-dir _build -j8 --timeout 900 </dev/null 2>&1 | grep -E "tests passed|tests failed" ;
 ( eval "$DEMO_CMD" ) </dev/null >/tmp/vm.$$.patched.log 2>&1; RC_PATCHED=$?
 echo "demo on patched tree: exit $RC_PATCHED"
 tail -3 /tmp/vm.$$.patched.log
